@@ -4,7 +4,9 @@ an independent recorder callback as ground truth, exact comparison with the exec
 import contextlib
 import csv
 import io
+import operator
 import os
+import random
 import shutil
 import tempfile
 
@@ -42,7 +44,11 @@ RULE = ("case = (state kind, seed, callback list [two metric evaluators with dif
         "segments [(starting_epoch, epochs, optional stop injected by a user callback at a chosen event, optionally started with the previous "
         "run's stop request still set, clear_history on chosen evaluators afterwards)]); every segment is one real fit(); scripted metric / message / "
         "metadata functions return values that depend on the LIVE parameters of the state they are handed; "
-        "non-trivial iff at least one scheduled and one unscheduled epoch-end fired for some callback; distinct by hash of the case")
+        "non-trivial iff at least one scheduled and one unscheduled epoch-end fired for some callback; distinct by hash of the case; "
+        "ARGUMENT FORMS (seeds `fseed` / `iseed` of the case): every integer option of every public call (period of all four callbacks, num_samples / "
+        "num_chains / burn_in / steps, get_value's index, fit's epochs / pos_batch_size / neg_batch_size / k / starting_epoch) is handed over as a Python int, "
+        "numpy integer scalar, 0-d numpy array or 0-d torch tensor, every boolean option (verbose, save_initial, metadata_only, time, progbar) as the bool "
+        "singleton, int, numpy bool, 0-d array or 0-d tensor, by keyword and positionally (constructors, get_value, fit); the model is told the VALUES")
 
 STAT_QUERIES = ["mean", "means", "variance", "variances", "std_error", "std_errors", "num_samples", "num_sample", "foo", "s",
                 "", "ss", "data", "datas", "bias", "bia", "biass", "meanss", "__class__", "__dict__", "__getitem__"]
@@ -116,6 +122,91 @@ def extra_stat_value(w, oi, ki):
     return float(1000 * w + 17 * oi + ki) + 0.25
 EVKIND = {"on_train_start": "ts", "on_train_end": "te", "on_epoch_start": "es", "on_epoch_end": "ee",
           "on_batch_start": "bs", "on_batch_end": "be"}
+
+
+# ---------------------------------------------------------------- argument forms (round 5: every option of every public call)
+# What the CLEAN code accepts (probed on /repo with every form of qc.INT_FORMS / qc.FLAG_FORMS against the plain Python value under the same
+# torch seed, notes/C17.md "Argument-form sweep"):
+#   period (all four callbacks): every INT_FORM gives the schedule of the plain int; used: all but (1) the 0-d torch tensor (it works only because
+#       torch overloads `%`: the harmless rewrite benign/C17_1 computes `divmod(epoch, period)`, a TypeError for a Tensor - a tensor-valued period
+#       is not an input the property text covers) and (2) np.uint8 (`epoch % np.uint8(p)` is an OverflowError for a NEGATIVE epoch - NumPy 2
+#       refuses to cast the Python int - and unsigned arithmetic wraps / raises inside NumPy: `-4 // np.uint8(2)`, `np.uint8(1) - np.uint8(3)`);
+#       period 0 (malformed stream) stays a plain int (`e % np.int64(0)` is 0 with a RuntimeWarning, not a ZeroDivisionError).
+#   np.uint8 in general: used only for pure loop counts (k, burn_in, steps); left out for everything that may enter a subtraction / negation /
+#       ceiling division in a harmless rewrite (periods, epochs, starting_epoch, batch sizes, num_samples, num_chains, indices).
+#   num_samples / num_chains: every form works except the 0-d torch tensor (System.statistics then returns float32 TENSORS instead of floats:
+#       code of C08 / C13, not anchored here); burn_in / steps: every form.
+#   get_value(name, index): every form works (list indexing goes through __index__).
+#   fit: epochs / pos_batch_size / neg_batch_size / k / starting_epoch: every form works; time: every flag form by truthiness; progbar: tested with
+#       `progbar is False` (a falsy non-singleton SHOWS the bar on stderr: display only, stderr is captured and ignored).
+#   save_initial / metadata_only: truthiness, every flag form.  verbose: tested with `verbose is True`: a truthy NON-singleton prints nothing
+#       (display only; the property text does not mention printing): the records are compared for every form, the printing oracle gives no
+#       verdict for a truthy non-singleton.
+NO_UINT8 = tuple(f for f in qc.INT_FORMS if f != "np.uint8")
+SIZE_FORMS = tuple(f for f in qc.INT_FORMS if f not in ("t0d", "np.uint8"))        # num_samples, num_chains, period
+FIT_ORDER = ["epochs", "pos_batch_size", "neg_batch_size", "k", "lr", "input_bases", "progbar", "starting_epoch", "time", "callbacks"]
+FIT_DEFAULTS = {"neg_batch_size": None, "input_bases": None, "progbar": False, "time": False}
+
+
+class Forms:
+    """the per-case streams that decide HOW every option is handed over: `fl` (qc.Flags, seed `fseed`) for booleans, `it` / `it_gv` (qc.Ints,
+    seed `iseed`) for integers (constructors + fit / get_value indices), `cf` for keyword-vs-positional decisions. A case without the two seeds
+    (corpus, replays stored before this round) gets plain Python values in the call forms used before: it replays exactly as it did."""
+
+    def __init__(self, ctx, case):
+        fs, is_ = case.get("fseed"), case.get("iseed")
+        self.ctx = ctx
+        self.on = fs is not None or is_ is not None
+        self.fl = qc.Flags(fs)
+        self.it = qc.Ints(is_)
+        self.it_gv = qc.Ints(None if is_ is None else is_ + 1)
+        self.cf = random.Random(31 * (fs or 0) + (is_ or 0) + 7) if self.on else None
+        self.cf_gv = random.Random(31 * (fs or 0) + (is_ or 0) + 8) if self.on else None
+        # one case never mixes a 0-d numpy array with a 0-d torch tensor: arithmetic BETWEEN the two (`np.array(7) - torch.tensor(2)`, also
+        # + * // % <) is a TypeError inside NumPy / Torch themselves, so a harmless rewrite that combines two options (`epochs - starting_epoch`)
+        # would raise a false alarm; which of the two a case may use is decided by the parity of its `iseed`; every other pair of forms mixes
+        self.never = None if is_ is None else ("t0d" if is_ % 2 else "np0d")
+        self.period_forms = SIZE_FORMS
+
+    def coin(self, p):
+        return self.cf is not None and self.cf.random() < p
+
+    def pick(self, xs):
+        return self.cf.choice(xs)
+
+    def allowed(self, forms):
+        return tuple(f for f in forms if f != self.never)
+
+    def integer(self, opt, n, allowed=qc.INT_FORMS):
+        v, d = self.it(n, self.allowed(allowed))
+        self.ctx.count(f"form.int.{opt}={d['form']}")
+        return v
+
+    def period(self, kind, p):
+        return self.integer(f"{kind}.period", p, self.period_forms if p >= 1 else ("py",))
+
+    def flag(self, opt, b):
+        """(object, positional?)"""
+        v, d = self.fl(b)
+        self.ctx.count(f"form.flag.{opt}={d['form']}")
+        return v, bool(d["pos"])
+
+    def called(self, what, how):
+        if self.on:
+            self.ctx.count(f"form.call.{what}={how}")
+
+
+def canon_kw(v):
+    """a keyword-argument value as the scripted functions saw it, JSON-able: every integer form is rendered as its VALUE"""
+    if v is None or isinstance(v, (bool, str)):
+        return v
+    try:
+        return operator.index(v)
+    except TypeError:
+        pass
+    if isinstance(v, (float, np.floating)):
+        return {"float": float(v)}
+    return {"type": type(v).__name__}
 
 
 # ---------------------------------------------------------------- scripted environment
@@ -199,7 +290,7 @@ class Built:
     pass
 
 
-def build_callbacks(case, rec, tmp, st):
+def build_callbacks(case, rec, tmp, st, fm):
     from qucumber.callbacks import Logger, MetricEvaluator, ModelSaver, ObservableEvaluator
     from qucumber.observables import SigmaX, SigmaZ
 
@@ -212,7 +303,7 @@ def build_callbacks(case, rec, tmp, st):
 
         def saw(nn_state, a, k, b=b):
             b.seen.append({"w": rec.cur, "is_live_state": nn_state is st, "psig": param_sig(snapshot(nn_state)) if hasattr(nn_state, "networks") else None,
-                           "args": len(a), "kwargs": dict(k)})
+                           "args": len(a), "kwargs": {kk: canon_kw(v) for kk, v in k.items()}})
         if cb["type"] == "metric":
             def mk(idx, b=b, cb=cb, saw=saw):
                 def fn(nn_state, *a, **kw):
@@ -224,8 +315,8 @@ def build_callbacks(case, rec, tmp, st):
                 return fn
             metrics = {name: mk(i) for i, name in enumerate(cb["names"])}
             b.logpath = os.path.join(tmp, cb.get("logname", "log{}.csv").replace("{}", str(ci))) if cb["log"] else None
-            vkw = {"verbose": True} if cb.get("verbose") else {}
-            b.obj = MetricEvaluator(cb["period"], metrics, log=b.logpath, offset=cb["offset"], **vkw)
+            args, kw = evaluator_call(fm, b, "metric", cb, metrics, "metrics")
+            b.obj = MetricEvaluator(*args, offset=cb["offset"], **kw)
         elif cb["type"] == "observable":
             cls = {"SigmaZ": SigmaZ, "SigmaX": SigmaX}
             b.logpath = os.path.join(tmp, f"log{ci}.csv") if cb["log"] else None
@@ -235,9 +326,16 @@ def build_callbacks(case, rec, tmp, st):
                 ob = cls[oc]()
                 ob.name = on
                 observables.append(ob)
-            vkw = {"verbose": True} if cb.get("verbose") else {}
-            b.obj = ObservableEvaluator(cb["period"], observables, log=b.logpath,
-                                        num_samples=6, burn_in=2, steps=1, **vkw)
+            args, kw = evaluator_call(fm, b, "observable", cb, observables, "observables")
+            # sampling options: integer options too (values as before; num_chains only in cases that carry form seeds)
+            b.want_kw = dict(SAMPLING_KWARGS)
+            skw = {"num_samples": fm.integer("observable.num_samples", 6, SIZE_FORMS), "burn_in": fm.integer("observable.burn_in", 2),
+                   "steps": fm.integer("observable.steps", 1)}
+            if fm.coin(0.4):
+                nc = fm.pick([0, 2, 3, 6, 9])
+                b.want_kw["num_chains"] = nc
+                skw["num_chains"] = fm.integer("observable.num_chains", nc, SIZE_FORMS)
+            b.obj = ObservableEvaluator(*args, **skw, **kw)
             b.captured = {}   # world -> the dict returned by system.statistics
             orig = b.obj.system.statistics
 
@@ -266,20 +364,96 @@ def build_callbacks(case, rec, tmp, st):
             b.md = md
             # pre / post are LITERAL text: braces are escaped so that `file_name.format(x)` renders them as they are
             esc = lambda t: t.replace("{", "{{").replace("}", "}}")  # noqa: E731
-            sikw = {} if cb["save_initial"] is None else {"save_initial": cb["save_initial"]}     # None: left to its default (True)
-            b.obj = ModelSaver(cb["period"], b.folder, esc(cb["pre"]) + "{}" + esc(cb["post"]),
-                               metadata=md, metadata_only=cb["metadata_only"], **sikw)
+            fname = esc(cb["pre"]) + "{}" + esc(cb["post"])
+            pobj = fm.period("saver", cb["period"])
+            mo, mo_pos = fm.flag("saver.metadata_only", cb["metadata_only"])
+            if cb["save_initial"] is None:                                     # None: left to its default (True)
+                si_pos = False
+            else:
+                si, si_pos = fm.flag("saver.save_initial", cb["save_initial"])
+            if fm.coin(0.25):
+                args, kw = [], {"file_name": fname, "period": pobj, "folder_path": b.folder}
+                fm.called("ModelSaver", "all-keyword")
+            else:
+                args, kw = [pobj, b.folder, fname], {}
+            if args and si_pos:
+                args.append(si)                                                # save_initial positionally (4th)
+                if mo_pos or fm.coin(0.4):
+                    args += [md, mo]                                           # ... and metadata, metadata_only (5th, 6th)
+                    fm.called("ModelSaver", "6-positional")
+                else:
+                    kw.update(metadata=md, metadata_only=mo)
+                    fm.called("ModelSaver", "4-positional")
+            else:
+                kw.update(metadata=md, metadata_only=mo)
+                if cb["save_initial"] is not None:
+                    kw["save_initial"] = si
+                if args:
+                    fm.called("ModelSaver", "3-positional")
+            b.obj = ModelSaver(*args, **kw)
         elif cb["type"] == "logger":
             b.out = []
+            pobj = fm.period("logger", cb["period"])
+            how = fm.pick(["positional-period", "keyword-period", "positional-logger_fn", "positional-msg_gen"]) if fm.on else "positional-period"
+            fm.called("Logger", how)
             if cb.get("default_msg"):
-                b.obj = Logger(cb["period"], logger_fn=b.out.append, tag="x")
+                if how == "keyword-period":
+                    b.obj = Logger(logger_fn=b.out.append, tag="x", period=pobj)
+                elif how == "positional-period":
+                    b.obj = Logger(pobj, logger_fn=b.out.append, tag="x")
+                else:
+                    b.obj = Logger(pobj, b.out.append, tag="x")
             else:
                 def msg_gen(nn_state, e, *a, _saw=saw, _b=b, **kw):
                     _saw(nn_state, a, kw)
                     return [rec.cur, e, kw.get("tag"), _b.seen[-1]["psig"]]
-                b.obj = Logger(cb["period"], logger_fn=b.out.append, msg_gen=msg_gen, tag="x")
+                if how == "keyword-period":
+                    b.obj = Logger(msg_gen=msg_gen, logger_fn=b.out.append, tag="x", period=pobj)
+                elif how == "positional-period":
+                    b.obj = Logger(pobj, logger_fn=b.out.append, msg_gen=msg_gen, tag="x")
+                elif how == "positional-logger_fn":
+                    b.obj = Logger(pobj, b.out.append, msg_gen=msg_gen, tag="x")
+                else:
+                    b.obj = Logger(pobj, b.out.append, msg_gen, tag="x")
         built.append(b)
     return built
+
+
+def evaluator_call(fm, b, kind, cb, second, second_name):
+    """(args, kwargs) of `MetricEvaluator(period, metrics, verbose=False, log=None, **kw)` / `ObservableEvaluator(period, observables,
+    verbose=False, log=None, **kw)`: period in one of its integer forms (positionally or by keyword), verbose in one of the flag forms
+    (by keyword, positionally as the 3rd argument, or left out when False), log by keyword or as the 4th positional argument.
+    Records on `b` whether the object handed over as `verbose` IS the singleton True (the clean code prints only then)."""
+    cls = {"metric": "MetricEvaluator", "observable": "ObservableEvaluator"}[kind]
+    pobj = fm.period(kind, cb["period"])
+    verbose = bool(cb.get("verbose"))
+    if not fm.on:
+        # the call form of the rounds before: period and metrics positionally, verbose=True only when set
+        b.verbose_obj = True if verbose else False
+        return [pobj, second], dict({"verbose": True} if verbose else {}, log=b.logpath)
+    vobj, vpos = fm.flag(f"{kind}.verbose", verbose)
+    b.verbose_obj = vobj
+    if fm.coin(0.25):
+        fm.called(cls, "all-keyword")
+        kw = {"log": b.logpath, second_name: second, "period": pobj}
+        if verbose or not fm.coin(0.3):
+            kw["verbose"] = vobj
+        else:
+            b.verbose_obj = False                   # left to its default
+        return [], kw
+    if vpos:
+        if fm.coin(0.5):
+            fm.called(cls, "4-positional")
+            return [pobj, second, vobj, b.logpath], {}
+        fm.called(cls, "3-positional")
+        return [pobj, second, vobj], {"log": b.logpath}
+    fm.called(cls, "2-positional")
+    kw = {"log": b.logpath}
+    if verbose or not fm.coin(0.3):
+        kw["verbose"] = vobj
+    else:
+        b.verbose_obj = False
+    return [pobj, second], kw
 
 
 def _first_key(nn_state):
@@ -351,7 +525,28 @@ def attr_view(kind, b, obj, name, tok, wrap):
     return guarded(f)
 
 
-def observe_eval(b, tok):
+def get_value_call(fm, ev, nm, i):
+    """`ev.get_value(name, index=None)` with the index in one of its integer forms, positionally or by keyword (`i is None`: the default)"""
+    if fm is None or not fm.on:
+        return ev.get_value(nm) if i is None else ev.get_value(nm, i)
+    how = fm.cf_gv.choice(["positional", "positional", "keyword-index", "all-keyword"])
+    if i is None:
+        how = fm.cf_gv.choice(["omitted", "omitted", "positional", "keyword-index"])
+        iobj = None
+    else:
+        iobj, d = fm.it_gv(i, fm.allowed(NO_UINT8))
+        fm.ctx.count(f"form.int.get_value.index={d['form']}")
+    fm.ctx.count(f"form.call.get_value={how}")
+    if how == "omitted":
+        return ev.get_value(nm)
+    if how == "positional":
+        return ev.get_value(nm, iobj)
+    if how == "keyword-index":
+        return ev.get_value(nm, index=iobj)
+    return ev.get_value(index=iobj, name=nm)
+
+
+def observe_eval(b, tok, fm=None):
     """everything the evaluator exposes, canonicalised with `tok` (value -> token)"""
     ev = b.obj
     kind = b.spec["type"]
@@ -387,8 +582,8 @@ def observe_eval(b, tok):
         obs["stat_attr"] = [[nm, [[sq, guarded(lambda nm=nm, sq=sq: attr_view("stats", b, ev[nm], sq, tok, lambda r: arr_tokens(r, stok)))]
                                   for sq in STAT_QUERIES]] for nm in q]
     obs["attr"] = [[nm, attr_view(kind, b, ev, nm, tok, wrap)] for nm in q]
-    obs["get_value"] = [[nm, [[i, pyerr(lambda nm=nm, i=i: tok(ev.get_value(nm, i)))] for i in range(-n - 2, n + 2)]] for nm in q]
-    obs["get_value_default"] = [[nm, pyerr(lambda nm=nm: tok(ev.get_value(nm)))] for nm in q]
+    obs["get_value"] = [[nm, [[i, pyerr(lambda nm=nm, i=i: tok(get_value_call(fm, ev, nm, i)))] for i in range(-n - 2, n + 2)]] for nm in q]
+    obs["get_value_default"] = [[nm, pyerr(lambda nm=nm: tok(get_value_call(fm, ev, nm, None)))] for nm in q]
     obs["log"] = read_csv(b.logpath) if b.logpath else []
     return obs
 
@@ -447,6 +642,42 @@ def model_eval_view(m, b, cellstr):
 
 
 # ---------------------------------------------------------------- one case
+def fit_call(fm, seg, data, bases, cbl):
+    """(args, kwargs, time truthy?) of one `fit(data, epochs, pos_batch_size, neg_batch_size, k, lr, input_bases, progbar, starting_epoch, time,
+    callbacks)`: integer options in their forms, `time` / `progbar` in the flag forms, the first `npos` options positionally in the documented order.
+    Without form seeds: the keyword call of the rounds before (epochs, starting_epoch, pos_batch_size=4, k=1, lr, callbacks[, input_bases])."""
+    if not fm.on:
+        kw = dict(epochs=seg["epochs"], starting_epoch=seg["start"], pos_batch_size=4, k=1, lr=0.05, callbacks=cbl)
+        if bases is not None:
+            kw["input_bases"] = bases
+        return [data], kw, False
+    # (np.uint8 only for the loop count k: unsigned 8-bit arithmetic wraps or raises inside NumPy - `np.uint8(2) - np.uint8(4) + 1` is 255,
+    #  `-(-8 // np.uint8(4))` an OverflowError - so a harmless rewrite that computes the number of epochs / batches first would raise a false alarm)
+    vals = {"epochs": fm.integer("fit.epochs", seg["epochs"], NO_UINT8), "pos_batch_size": fm.integer("fit.pos_batch_size", 4, NO_UINT8),
+            "k": fm.integer("fit.k", 1), "lr": 0.05, "starting_epoch": fm.integer("fit.starting_epoch", seg["start"], NO_UINT8), "callbacks": cbl}
+    if fm.coin(0.4):
+        vals["neg_batch_size"] = fm.integer("fit.neg_batch_size", fm.pick([2, 4, 8]), NO_UINT8)
+    if bases is not None:
+        vals["input_bases"] = bases
+    time_on, pb_on = fm.coin(0.25), fm.coin(0.2)
+    tobj, tpos = fm.flag("fit.time", time_on)
+    pobj, ppos = fm.flag("fit.progbar", pb_on)
+    if time_on or tpos or fm.coin(0.5):
+        vals["time"] = tobj
+    if pb_on or ppos or fm.coin(0.5):
+        vals["progbar"] = pobj
+    npos = fm.pick([0, 0, 0, 1, 2, 4, 5, 7, 8, 9, 10]) if (tpos or ppos) else fm.pick([0, 0, 0, 0, 1, 2, 4])
+    fm.called("fit", f"{npos}-positional")
+    args, kw = [data], {}
+    # (PositiveWaveFunction.fit has no `input_bases` parameter: its documented order is the same list without it)
+    for j, name in enumerate([n_ for n_ in FIT_ORDER if not (bases is None and n_ == "input_bases")]):
+        if j < npos:
+            args.append(vals[name] if name in vals else FIT_DEFAULTS[name])
+        elif name in vals:
+            kw[name] = vals[name]
+    return args, kw, time_on
+
+
 def run_case(ctx, case):
     tmp = tempfile.mkdtemp(prefix="qv_c17_")
     try:
@@ -458,7 +689,8 @@ def run_case(ctx, case):
 def _run_case(ctx, case, tmp):
     st, data, bases = make_state(case["kind"], case["seed"])
     rec = Recorder()
-    built = build_callbacks(case, rec, tmp, st)
+    fm = Forms(ctx, case)
+    built = build_callbacks(case, rec, tmp, st, fm)
     periods = [cb["period"] for cb in case["cbs"]]
     sig0 = f"C17/{case['kind']}"
 
@@ -469,13 +701,13 @@ def _run_case(ctx, case, tmp):
     def observe_one(b):
         t = b.spec["type"]
         if t == "metric":
-            return observe_eval(b, lambda v: int(v) if not isinstance(v, dict) else v)
+            return observe_eval(b, lambda v: int(v) if not isinstance(v, dict) else v, fm)
         if t == "observable":
             def tokd(v):
                 if isinstance(v, dict):
                     return [[k, obs_token(x)] for k, x in v.items()]
                 return obs_token(v)
-            return observe_eval(b, tokd)
+            return observe_eval(b, tokd, fm)
         if t == "saver":
             return {"files": sorted(os.listdir(b.folder))}
         return {"out": list(b.out)}
@@ -486,6 +718,7 @@ def _run_case(ctx, case, tmp):
     seg_events = []      # per segment: recorder events of that segment
     nontrivial = False
     printed = []         # per segment: what the run wrote to stdout (only verbose evaluators print)
+    timed = []           # per segment: was fit called with a truthy `time` (its Timer callback prints at the end of the run)
     for seg in case["segments"]:
         n0 = len(rec.events)
         if not seg.get("keep_stop"):
@@ -493,14 +726,13 @@ def _run_case(ctx, case, tmp):
         stop_before = bool(st.stop_training)
         stopper = StopAt(seg.get("stop"))
         cbl = [rec] + [b.obj for b in built] + [stopper]
-        kw = dict(epochs=seg["epochs"], starting_epoch=seg["start"], pos_batch_size=4, k=1, lr=0.05, callbacks=cbl)
-        if bases is not None:
-            kw["input_bases"] = bases
+        args, kw, time_on = fit_call(fm, seg, data, bases, cbl)
+        timed.append(time_on)
         err = None
         buf = io.StringIO()
         try:
-            with contextlib.redirect_stdout(buf):
-                st.fit(data, **kw)
+            with contextlib.redirect_stdout(buf), contextlib.redirect_stderr(io.StringIO()):     # stderr: the tqdm bar (progbar forms)
+                st.fit(*args, **kw)
         except Exception as e:  # noqa: BLE001
             err = type(e).__name__
         printed.append(buf.getvalue())
@@ -657,13 +889,13 @@ def _run_case(ctx, case, tmp):
 
     # ---- oracles directly on the implementation
     oracle_checks(ctx, case, built, rec, seg_events, seg_results, impl_snaps, st, sig0)
-    live_state_checks(ctx, case, built, rec, seg_events, seg_results, printed, sig0)
+    live_state_checks(ctx, case, built, rec, seg_events, seg_results, printed, sig0, timed)
 
 
 SAMPLING_KWARGS = {"num_samples": 6, "burn_in": 2, "steps": 1}
 
 
-def live_state_checks(ctx, case, built, rec, seg_events, seg_results, printed, sig0):
+def live_state_checks(ctx, case, built, rec, seg_events, seg_results, printed, sig0, timed=None):
     """WHICH state the callbacks evaluate and with WHICH arguments (the scripted functions record what they are handed):
     the live NeuralState object being trained (identity), whose parameters at that moment are those of the recorder's own snapshot of the
     same event, no extra positional arguments, and exactly the configured keyword arguments. Verbose evaluators print at, and only at,
@@ -674,7 +906,7 @@ def live_state_checks(ctx, case, built, rec, seg_events, seg_results, printed, s
         cb = b.spec
         t = cb["type"]
         cc = {**case, "callback": ci}
-        want_kw = {"metric": {"offset": cb.get("offset")}, "observable": SAMPLING_KWARGS, "saver": {},
+        want_kw = {"metric": {"offset": cb.get("offset")}, "observable": getattr(b, "want_kw", SAMPLING_KWARGS), "saver": {},
                    "logger": {"tag": "x"}}[t]
         bad = [x for x in b.seen if not x["is_live_state"] or x["args"] != 0 or x["kwargs"] != want_kw
                or x["psig"] != rec.psig(x["w"])]
@@ -684,14 +916,29 @@ def live_state_checks(ctx, case, built, rec, seg_events, seg_results, printed, s
                    sig=f"{sig0}/{t}/live-state-and-kwargs", theorem="C17_records_metric_run / C17_records_observable_run / C17_saver / C17_schedule_logger "
                    "(values are functions of the world token of the epoch-end event itself)")
     # verbose: something is printed in a run iff a verbose evaluator evaluated in it
+    # (a truthy `verbose` that is NOT the singleton True - 1, numpy.True_, a 0-d array / tensor - prints nothing on the clean tree, which tests
+    #  `verbose is True`; printing is display only and not part of the property text, so evaluations of such an evaluator carry no verdict either
+    #  way; a truthy `time` makes fit's own Timer print at the end of the run: then only "something is printed" can be demanded)
     for si, (evs, out) in enumerate(zip(seg_events, printed)):
-        n_eval = 0
+        n_eval = n_open = 0
         for b in built:
             cb = b.spec
             if cb["type"] in ("metric", "observable") and cb.get("verbose") and cb["period"] >= 1:
-                n_eval += sum(1 for ev in evs if ev["k"] == "ee" and ev["e"] % cb["period"] == 0)
-        ctx.oracle("verbose evaluators print at their evaluations, nothing is printed otherwise", (out != "") == (n_eval > 0),
-                   {**case, "at_segment": si}, detail={"stdout": out[:300], "verbose_evaluations": n_eval},
+                k = sum(1 for ev in evs if ev["k"] == "ee" and ev["e"] % cb["period"] == 0)
+                if getattr(b, "verbose_obj", True) is True:
+                    n_eval += k
+                else:
+                    n_open += k
+        timer = bool(timed and timed[si]) and any(ev["k"] == "te" for ev in evs)
+        if n_eval > 0:
+            okp = out != ""
+        elif n_open > 0 or timer:
+            okp = True                          # no verdict
+            ctx.count("segment.verbose_output_unconstrained(" + ("timer" if timer else "verbose given as a truthy non-singleton") + ")")
+        else:
+            okp = out == ""
+        ctx.oracle("verbose evaluators print at their evaluations, nothing is printed otherwise", okp,
+                   {**case, "at_segment": si}, detail={"stdout": out[:300], "verbose_evaluations": n_eval, "timer": timer},
                    sig=f"{sig0}/verbose-output", theorem="C17_schedule_metric, C17_schedule_observable")
         if n_eval:
             ctx.count("segment.verbose_output")
@@ -767,6 +1014,8 @@ def oracle_checks(ctx, case, built, rec, seg_events, seg_results, impl_snaps, st
         p = cb["period"]
         cc = {**case, "callback": ci}
         t = cb["type"]
+        if p < 1:
+            continue       # outside the quantifier (p >= 1): an implementation that does not refuse it is reported by the `exception` point
         # ground truth: epoch-ends per segment, evaluations kept since the last clear_history of this callback
         kept, allev = [], []
         for si, (evs, seg) in enumerate(zip(seg_events, case["segments"])):
@@ -932,7 +1181,10 @@ def gen_case(rng, kind, p1, thorough, idx):
             seg["stop"] = None
         segs.append(seg)
         start = rng.choice([1, epochs + 1, max(start, 1), 3])
-    return {"kind": kind, "seed": rng.randrange(1000), "cbs": cbs, "segments": segs}
+    # seeds of the case's argument-form streams (qc.Flags / qc.Ints / call forms): drawn LAST, so the rest of the case is the one the
+    # generator produced before this round for the same rng state
+    return {"kind": kind, "seed": rng.randrange(1000), "cbs": cbs, "segments": segs,
+            "fseed": rng.randrange(2 ** 31), "iseed": rng.randrange(2 ** 31)}
 
 
 def malformed_cases(rng):
@@ -974,22 +1226,28 @@ def run(ctx):
         run_case(ctx, case)
 
 
-def format_spec_cases(ctx):
+def format_spec_cases(ctx, forms=True):
     """`file_name` with a format SPEC (outside the model, whose file names are `pre{}post`): `"m{:03d}.pt"` names the epoch files
     `m002.pt`, …, each loads back to the parameters at the end of that epoch; the "initial" save (`"{:03d}".format("initial")`) is a
     ValueError at train start — the recorded behaviour of `str.format`, so such a pattern needs `save_initial=False`."""
     from qucumber.callbacks import ModelSaver
-    for save_initial in (False, True, None):
+    for idx, save_initial in enumerate((False, True, None)):
         tmp = tempfile.mkdtemp(prefix="qv_c17f_")
         case = {"format_spec": "m{:03d}.pt", "save_initial": save_initial}
+        if forms:
+            # fixed form seeds (the three cases are not random): period / save_initial / fit's integers in non-plain forms too;
+            # `forms=False` (replay of a case stored before this round): plain Python values
+            case.update(fseed=1700 + idx, iseed=1701 + 2 * idx)
+        fm = Forms(ctx, {**case, "segments": []})
         try:
             st, data, bases = make_state("pos", 3)
             rec = Recorder()
-            kw = {} if save_initial is None else {"save_initial": save_initial}
-            saver = ModelSaver(2, os.path.join(tmp, "f"), "m{:03d}.pt", **kw)
+            kw = {} if save_initial is None else {"save_initial": fm.flag("saver.save_initial", save_initial)[0]}
+            saver = ModelSaver(fm.period("saver", 2), os.path.join(tmp, "f"), "m{:03d}.pt", **kw)
             err = None
             try:
-                st.fit(data, epochs=5, pos_batch_size=4, k=1, lr=0.05, callbacks=[rec, saver])
+                st.fit(data, epochs=fm.integer("fit.epochs", 5, NO_UINT8), pos_batch_size=fm.integer("fit.pos_batch_size", 4, NO_UINT8),
+                       k=fm.integer("fit.k", 1), lr=0.05, callbacks=[rec, saver])
             except Exception as e:  # noqa: BLE001
                 err = type(e).__name__
             files = sorted(os.listdir(os.path.join(tmp, "f")))
@@ -1033,7 +1291,7 @@ def search(ctx):
 
 def replay(ctx, case):
     if "format_spec" in case:
-        format_spec_cases(ctx)
+        format_spec_cases(ctx, forms="fseed" in case or "iseed" in case)
         return
     case = {k: v for k, v in case.items() if k not in ("at_segment", "callback", "file", "detail")}
     run_case(ctx, case)
